@@ -299,3 +299,20 @@ package rules
 //@   requires _this.receiver != nil
 //@   may_panic
 //@   forwards OnError()
+
+// ---------------------------------------------------------------------------------------------
+// Reset point (C16): whatever the context went through before (a rejected document included),
+// after Reset every field a new document reads before writing it has its initial value: counters
+// zero, empty rule stack, empty record-type, marker and forward-reference tables, the current
+// entry waiting for the document to begin with no keys. (The array and marker scratch fields are
+// written by every array/marker begin before they are read, and are not part of this.)
+//@ func (*Context).Reset
+//@   modifies _this.objectCount, _this.containerDepth, _this.LocalReferenceCount, _this.stack, _this.recordTypes, _this.markedObjects, _this.forwardLocalReferences, obj(_this.CurrentEntry), maps, alloc
+//@   ensures _this.objectCount == 0 && _this.containerDepth == 0 && _this.LocalReferenceCount == 0 && len(_this.stack) == 0
+//@   ensures _this.stack.arr == old(_this.stack.arr) && cap(_this.stack) == old(cap(_this.stack))
+//@   ensures _this.recordTypes != nil && len(_this.recordTypes) == 0
+//@   ensures _this.markedObjects != nil && len(_this.markedObjects) == 0
+//@   ensures _this.forwardLocalReferences != nil && len(_this.forwardLocalReferences) == 0
+//@   ensures typeIs(_this.CurrentEntry.Rule, "*BeginDocumentRule") && payload(_this.CurrentEntry.Rule, "*BeginDocumentRule") == &beginDocumentRule
+//@   ensures _this.CurrentEntry.DataType == DataTypeInvalid && _this.CurrentEntry.ExpectedObjectCount == -1 && _this.CurrentEntry.CurrentObjectCount == 0
+//@   ensures _this.CurrentEntry.Keys != nil && len(_this.CurrentEntry.Keys) == 0 && fresh(_this.CurrentEntry.Keys)
